@@ -35,7 +35,7 @@ def shapes():
 
 
 OPS = ["jacobian", "grad", "elementwise_grad", "hessian", "make_hvp", "hessian_tensor_product", "tensor_jacobian_product", "make_ggnvp",
-       "make_ggnvp-g", "make_jvp", "deriv", "make_jvp_reversemode", "value_and_grad", "grad_and_aux", "grad_named", "make_vjp", "holomorphic_grad",
+       "make_ggnvp-g", "tensor_jacobian_product-prefix1", "tensor_jacobian_product-prefix2", "make_jvp", "deriv", "make_jvp_reversemode", "value_and_grad", "grad_and_aux", "grad_named", "make_vjp", "holomorphic_grad",
        "hessian_vector_product", "vector_jacobian_product"]
 LAYOUTS = ["pos0", "pos1", "pos2", "kwargs", "tuple-argnum", "list-argnum", "tuple1-argnum", "list1-argnum", "neg1", "neg2", "neg1-varargs"]
 
@@ -191,6 +191,14 @@ def ops_factory(quick, seed):
                         must_raise = True
                     got = getattr(ag, op)(fun, argnum)(*(args + (v_in,)), **kw)
                     want = (Hm[0] @ onp.asarray(v_in).reshape(-1)).reshape(I)
+                elif op in ("tensor_jacobian_product-prefix1", "tensor_jacobian_product-prefix2"):
+                    # a tensor that covers only the LEADING output axes: contracted with those, the rest of the output survives
+                    k_ = int(op[-1])
+                    if len(O) <= k_ or layout.startswith("neg"):
+                        raise Skip("needs an output of higher rank than the tensor")
+                    tpre = fill(O[:k_], 9, -1.0, 1.0, seed)
+                    got = ag.tensor_jacobian_product(fun, argnum)(*(args + (tpre,)), **kw)
+                    want = onp.tensordot(tpre, J, axes=k_)
                 elif op in ("tensor_jacobian_product", "vector_jacobian_product"):
                     got = getattr(ag, op)(fun, argnum)(*(args + (t_out,)), **kw)
                     want = (onp.asarray(t_out).reshape(-1) @ Jm).reshape(I)
@@ -265,6 +273,8 @@ def ops_factory(quick, seed):
 
 
 def _close(a, b):
+    if isinstance(b, str):
+        return a == b
     if isinstance(b, tuple):
         return isinstance(a, (tuple, list)) and len(a) == len(b) and all(_close(x, y) for x, y in zip(a, b))
     if isinstance(b, bool):
@@ -368,6 +378,13 @@ def misc_factory(quick, seed):
                  lambda: ag.deriv(lambda x: ag.value_and_grad(lambda y: x ** 3)(2.0)[0])(2.0), 12.0))
     PASS.append(("three levels: grad of grad through the primal of make_jvp of a function of the two outer variables",
                  lambda: ag.grad(lambda x: ag.grad(lambda y: ag.make_jvp(lambda z: x * x * y * y * y)(1.0)(1.0)[0])(2.0))(3.0), 2 * 3.0 * 3 * 4.0))
+
+    # autograd's container constructors give the constructor's type whatever the traced argument's type is
+    ab_ = __import__("autograd.builtins", fromlist=["x"])
+    PASS.append(("autograd.builtins.tuple of a traced list is a tuple (primal of make_vjp / make_jvp, aux of grad_and_aux)",
+                 lambda: (type(ag.make_vjp(lambda l: ab_.tuple(l))([1.0, 2.0])[1]).__name__, type(ag.make_jvp(lambda l: ab_.tuple(l))([1.0, 2.0])([1.0, 0.0])[0]).__name__,
+                          type(ag.grad_and_aux(lambda l: (l[0] * l[1], ab_.tuple(l)))([1.0, 2.0])[1]).__name__,
+                          type(ag.make_vjp(lambda t: ab_.list(t))((1.0, 2.0))[1]).__name__), ("tuple", "tuple", "tuple", "list")))
 
     def h(ch):
         kind = ch.choose("kind", ["must-raise", "pass-through"])
